@@ -643,9 +643,9 @@ fn kitty_image_id(img: &Image) -> u64 {
 fn kitty_placement_id(pos: Position) -> u64 {
     // zero means "unspecified placement" in the protocol (deleting it removes all
     // placements of the image), so identifiers start from one
-    ((pos.row as u64 % KITTY_MAX_DIM) + (pos.col as u64 % KITTY_MAX_DIM) * KITTY_MAX_DIM)
-        % KITTY_MAX_ID
-        + 1
+    // (only the two bottom right most positions of the largest possible terminal share an id)
+    ((pos.row as u64 % KITTY_MAX_DIM) + (pos.col as u64 % KITTY_MAX_DIM) * KITTY_MAX_DIM + 1)
+        .min(KITTY_MAX_ID)
 }
 
 fn kitty_placement_to_pos(placement_id: u64) -> Position {
